@@ -4,6 +4,7 @@ import (
 	"bytes"
 	"fmt"
 	"io"
+	"log"
 	"sync"
 
 	"github.com/lugu/qiloop/bus/net"
@@ -234,9 +235,15 @@ func (o *signalHandler) UpdateSignal(signalID uint32, data []byte) error {
 	return ret
 }
 
-// UpdateProperty informs the registered clients of the property change
+// UpdateProperty informs the registered clients of the property
+// change. The new value is stored already: a subscriber which cannot
+// be reached does not make the update fail.
 func (o *signalHandler) UpdateProperty(id uint32, sig string, data []byte) error {
-	return o.UpdateSignal(id, data)
+	err := o.UpdateSignal(id, data)
+	if err != nil {
+		log.Printf("property %d: %s", id, err)
+	}
+	return nil
 }
 
 func (o *signalHandler) trace(msg *net.Message) {
